@@ -228,3 +228,42 @@ def sample_of(case):
 
 def case_id(case):
     return jhash({k: case[k] for k in ("assignment", "formats", "sizes", "inputs") if k in case})
+
+
+# ------------------------------------------------------------------- cases from text (sweeps)
+def case_from_text(text, formats, sizes, doks, capacity=None, value_class="exact"):
+    """Build a kernel case from assignment text (parsed by tensora, converted to a harness tree)."""
+    bridge.ensure_tensora()
+    from tensora.expression import parse_assignment
+
+    asg = parse_assignment(text).unwrap()
+    tree = X.from_tensora(asg.expression)
+    target = [asg.target.name, list(asg.target.indexes)]
+    names = [target[0]] + list(dict.fromkeys(t[1] for t in X.tensors(tree)))
+    first = {}
+    for t in X.tensors(tree):
+        first.setdefault(t[1], t)
+    fm = {n: formats.get(n, "d" * (len(target[1]) if n == target[0] else len(first[n][2]))) for n in names}
+    inputs = {}
+    for n in names[1:]:
+        dims = tuple(sizes[i] for i in first[n][2])
+        m, o = C.fmt_parts(fm[n])
+        levels, vals = C.levels_from_dok(doks.get(n, {}), dims, m, o)
+        inputs[n] = {"levels": levels, "vals": vals}
+    used = set(X.indexes_of(tree)) | set(target[1])
+    return {"target": target, "expr": tree, "assignment": X.assignment_text(target, tree), "formats": fm,
+            "sizes": {i: sizes[i] for i in sorted(used)}, "inputs": inputs, "value_class": value_class,
+            "capacity": capacity}
+
+
+def pattern_dok(dims, k, salt=0):
+    """Deterministic sparse pattern with values that are multiples of 1/2 (explicit zeros never stored)."""
+    import itertools
+
+    d = {}
+    for c in itertools.product(*[range(x) for x in dims]):
+        h = (sum((q + 1) * v for q, v in enumerate(c)) * 7 + 3 * k + salt + len(dims)) % 5
+        if h in (0, 2) or (k % 2 == 1 and h == 4):
+            v = ((sum(c) + k + salt) % 7 - 3) / 2
+            d[c] = v if v != 0 else 1.5
+    return d
